@@ -58,3 +58,11 @@ func TestC19(t *testing.T) {
 		return c
 	})
 }
+
+func TestC18(t *testing.T) {
+	runProp(t, "C18", func(t *rapid.T) *core.Case {
+		c := drawGeneral(t, gen.Profile{MaxDepth: 4}, gen.WindowOpts{}, gen.DataOpts{Specials: true, MaxSeries: 12, Histogram: true})
+		c.Delay = uint64(rapid.IntRange(0, 1<<20).Draw(t, "delay"))
+		return c
+	})
+}
